@@ -97,21 +97,23 @@ type simCkptEvent struct {
 }
 
 type simWorld struct {
-	stalls   int // operations that stalled until their deadline
-	slows    int // operations that were slow
-	mu       sync.Mutex
-	objs     map[string][]byte
-	hist     map[string][][]byte // every version each key ever had (uploads), for roll-back tampering
-	opts     map[string]UploadOptions
-	tampered bool // storage was modified behind the server's back: write-once and publication bookkeeping no longer apply
-	lock     map[[32]byte][]byte
-	opN      int
-	clock    int64
-	trace    []simOp
-	lockLog  []simCkptEvent // every applied Create/Replace
-	pubLog   []simCkptEvent // every applied upload of key "checkpoint"
-	viol     []string
-	procs    int
+	barrierNext                  bool // the next round's tile uploads wait for each other
+	barriersMet, barrierTimeouts int
+	stalls                       int // operations that stalled until their deadline
+	slows                        int // operations that were slow
+	mu                           sync.Mutex
+	objs                         map[string][]byte
+	hist                         map[string][][]byte // every version each key ever had (uploads), for roll-back tampering
+	opts                         map[string]UploadOptions
+	tampered                     bool // storage was modified behind the server's back: write-once and publication bookkeeping no longer apply
+	lock                         map[[32]byte][]byte
+	opN                          int
+	clock                        int64
+	trace                        []simOp
+	lockLog                      []simCkptEvent // every applied Create/Replace
+	pubLog                       []simCkptEvent // every applied upload of key "checkpoint"
+	viol                         []string
+	procs                        int
 
 	cachePath string
 
@@ -183,6 +185,9 @@ type simProc struct {
 	roundTime int64
 	onCrash   func()
 	slowMs    int64 // delay of the simSlow directive that just fired
+	barrier   bool  // this round's tile uploads wait for each other (tileBarrier)
+	arrived   int
+	barrierCh chan struct{}
 }
 
 func (w *simWorld) newProc() *simProc {
@@ -207,6 +212,37 @@ func (p *simProc) begin(phase string, faults []simFault) {
 	p.batchKeys = nil
 	p.crashMask = nil
 	p.ops = 0
+	p.barrier, p.arrived, p.barrierCh = p.w.barrierNext && phase == "round", 0, make(chan struct{})
+	p.w.barrierNext = false
+}
+
+// tileBarrier makes the uploads of a round's tile batch overlap in time: each one waits until all uploads of the
+// staged bundle have been issued (or 2 s of virtual time have passed). A server that issues them all concurrently
+// does not notice; one that issues them in waves only loses virtual time.
+func (p *simProc) tileBarrier(ctx context.Context, op *simOp) {
+	if !simVirtualTime || ctx.Value(simInlineKey{}) != nil || op.Class != "tile" {
+		return
+	}
+	w := p.w
+	w.mu.Lock()
+	if !p.barrier || p.dead || len(p.batchKeys) == 0 {
+		w.mu.Unlock()
+		return
+	}
+	p.arrived++
+	ch := p.barrierCh
+	if p.arrived == len(p.batchKeys) {
+		close(ch)
+		w.barriersMet++
+	}
+	w.mu.Unlock()
+	select {
+	case <-ch:
+	case <-time.After(2 * time.Second):
+		w.mu.Lock()
+		w.barrierTimeouts++
+		w.mu.Unlock()
+	}
 }
 
 func (p *simProc) firedFaults() []string {
@@ -418,6 +454,7 @@ func (b *simBackend) Metrics() []prometheus.Collector { return nil }
 func (b *simBackend) Upload(ctx context.Context, key string, data []byte, opts *UploadOptions) error {
 	p, w := b.p, b.p.w
 	op := &simOp{Kind: "upload", Class: simClassOfKey(key), Key: key}
+	p.tileBarrier(ctx, op)
 	p.doYield(ctx, op)
 	w.mu.Lock()
 	defer w.mu.Unlock()
